@@ -451,8 +451,8 @@ def main():
     failures, cases, impl, model, stats, corr_s = [], [], [], [], {"evaluations": 0, "nontrivial": set(), "ops": {}, "kinds": {}, "corpus_cases": 0}, 0.0
     search_note = ""
     if harness and os.path.exists(os.path.join(BUILD, "model", "driver")):
-        # when an obligation is broken the search runs at the thorough budget
-        eff_tier = "thorough" if (broken and not replay) else tier
+        # when an obligation is broken the search runs with a larger budget (thorough tier: the thorough budget)
+        eff_tier = ("thorough" if tier == "thorough" else "search") if (broken and not replay) else tier
         try:
             cases, impl, model, failures, stats, corr_s = step_correspondence(prop, eff_tier, seed, harness, replay)
             if broken:
